@@ -465,6 +465,20 @@ def standin_clifford_state_maps(tier, seed):
         if not np.allclose(st.state_vector(), want, atol=1e-7):
             fails.append(dict(args=dict(qubit_map=repr(dict(items)), operations=repr(ops)), failed="clifford-state-axes", clause="state_vector() is the circuit's state with each qubit on the axis its qubit_map names"))
             continue
+        # a copy is independent of its source, and a measurement that is asked not to collapse leaves the state as it was
+        before = st.state_vector().copy()
+        cp = st.copy()
+        cp.apply_unitary(rng.choice(gates1)(rng.choice(qs)))
+        cp.apply_unitary(cirq.H(qs[0]))
+        cases += 1
+        if not np.allclose(st.state_vector(), before, atol=1e-9):
+            fails.append(dict(args=dict(qubit_map=repr(dict(items)), operations=repr(ops)), failed="clifford-state-copy", clause="evolving a copy() changed the state it was copied from"))
+            continue
+        rec0 = {}
+        st.apply_measurement(cirq.measure(*qs, key="nc"), rec0, np.random.RandomState(rng.randrange(1000)), collapse_state_vector=False)
+        if not np.allclose(st.state_vector(), before, atol=1e-9):
+            fails.append(dict(args=dict(qubit_map=repr(dict(items)), operations=repr(ops)), failed="clifford-state-copy", clause="apply_measurement(collapse_state_vector=False) changed the state"))
+            continue
         # a measurement of a basis state reads the digits of the named qubits, in the order the measurement lists them
         st2 = cirq.CliffordState(qubit_map=dict(items))
         flips = [x for x in qs if rng.random() < 0.5]
@@ -476,6 +490,18 @@ def standin_clifford_state_maps(tier, seed):
         cases += 1
         if [int(b) for b in rec["k"]] != [int(x in flips) for x in mq]:
             fails.append(dict(args=dict(qubit_map=repr(dict(items)), flipped=repr(flips), measured=repr(mq), got=[int(b) for b in rec["k"]]), failed="clifford-state-measure", clause="measuring a basis state returns the bits of the measured qubits"))
+    # the stabilizer route is chosen only for circuits it can run: whatever claims a stabilizer effect on qudits must run on the stabilizer
+    # simulator, and cirq.sample (which picks the simulator by that claim) works on a qutrit circuit with a reset
+    t3 = cirq.LineQid(0, dimension=3)
+    shift3 = cirq.MatrixGate(np.roll(np.eye(3), 1, axis=0), qid_shape=(3,))
+    for circ, want in ((cirq.Circuit(shift3(t3), cirq.ResetChannel(3)(t3), cirq.measure(t3, key="m")), 0), (cirq.Circuit(cirq.ResetChannel(3)(t3), shift3(t3), shift3(t3), cirq.measure(t3, key="m")), 2)):
+        cases += 1
+        try:
+            got = int(cirq.sample(circ).measurements["m"][0][0])
+            if got != want:
+                fails.append(dict(args=dict(circuit=repr(circ), got=got), failed="qudit-sample", clause=f"cirq.sample measured {got}, expected {want}"))
+        except Exception as ex:
+            fails.append(dict(args=dict(circuit=repr(circ)), failed="qudit-sample", clause=f"cirq.sample raised {type(ex).__name__}: {ex} (a qudit operation claims a stabilizer effect the stabilizer simulator cannot run)"))
     return dict(function="cirq-core/cirq/sim/clifford/clifford_simulator.py:CliffordState", case="clifford-state-maps", bound="seeded 2-3 qubit Clifford sequences x every qubit->axis permutation x shuffled map order",
                 cases=cases, distinct=cases, failures=len(fails), exhaustive=False, _fails=fails[:3])
 standin_clifford_state_maps.prop = "C13"
